@@ -310,7 +310,11 @@ class Impl:
 
     def _call(self, op, args, line):
         g = self.g
-        if op in ("move", "rapid", "moveabs", "rapidabs"):
+        if op == "fmtdp":
+            # harness-only (the builder model does not render text): the formatter's precision changes mid-program
+            g.format.set_decimal_places(int(args[0]))
+            self.dp = int(args[0])
+        elif op in ("move", "rapid", "moveabs", "rapidabs"):
             pt, kw = self._move_args(args)
             line = self._with_h(line, pt, op.endswith("abs"))
             fn = {"move": g.move, "rapid": g.rapid, "moveabs": g.move_absolute, "rapidabs": g.rapid_absolute}[op]
